@@ -235,8 +235,8 @@ func checkC06(c caseC06) (Outcome, error) {
 			if err != nil {
 				return out, fmt.Errorf("%v\ntext: %s", err, quoteShort(text))
 			}
-		case <-gotime.After(20 * gotime.Second):
-			return out, fmt.Errorf("HANG: no result after 20 s\ntext: %s", quoteShort(text))
+		case <-gotime.After(60 * gotime.Second):
+			return out, fmt.Errorf("HANG: no result after 60 s\ntext: %s", quoteShort(text))
 		}
 	} else if err := crashCheckX(text, &out, c.NoExclusions); err != nil {
 		return out, err
